@@ -115,6 +115,9 @@ CATALOGUE = [
     K("rad50-invalid-character", "compile", "error", ".rad50 ⟦/a!b/⟧", "invalid-character"),
     K("rad50-code-too-big", "compile", "error", ".rad50 /a/⟦<50>⟧", "value-out-of-bounds"),
     K("ascii-code-too-big", "compile", "error", ".ascii /a/<⟦400⟧>", "value-out-of-bounds"),
+    # a '<code>' chunk behind blanks or a tab: the chunk starts at its '<', not at the blank behind the previous chunk
+    K("rad50-code-too-big-after-blanks", "compile", "error", ".rad50 /a/  ⟦<50>⟧", "value-out-of-bounds"),
+    K("rad50-code-too-big-after-tab", "compile", "error", ".rad50 /ab/\t⟦<51>⟧/c/", "value-out-of-bounds"),
     K("tape-name-too-long", "compile", "error", "⟦make_wav⟧ /t{u}.wav/, /12345678901234567/", "too-long-string",
       level="statement",
       note="first designation was the tape-name string; pdpy11 reports the directive (coarse position, reported "
